@@ -31,11 +31,15 @@ SPECS = [  # (table, symm)
 ]
 
 
+# coolers whose chromosome names are numerals ('2', '10', '1'): only used by the round-trip leg (a BED bin table with such names)
+SPECS_NUM = [(((2, 2, 2), (2, 2)), True), (((1, 3), (2, 1, 1)), False)]
+
+
 def make(si):
     import cooler
     key = ("c16", si)
-    table, symm = SPECS[si]
-    bins = alpha.table_bins(table, "chr")
+    table, symm = (SPECS + SPECS_NUM)[si]
+    bins = alpha.table_bins(table, "chr" if si < len(SPECS) else "num")
     n = len(bins)
     cells = [c for k, c in enumerate(alpha.cells(n, symm)) if k % 3 != 1]
     pix = fx.pixvals(cells, n)
@@ -454,6 +458,7 @@ def units(tier):
     # the first cooler once more as a file of format version 2 (no storage-mode attribute: symmetric-upper by default)
     for part in range(0, 8, 2):
         yield {"leg": "dump", "s": 0, "part": part, "legacy": True}
+    for si in range(len(SPECS) + len(SPECS_NUM)):
         yield {"leg": "roundtrip", "s": si}
     for part in range(12):
         yield {"leg": "layouts", "nval": 0, "part": part, "of": 12}
